@@ -1,27 +1,7 @@
 /* unit: BinaryHeap::percolateUp -- unbounded (loop contract), every n <= 65535, every pos, ghost slot G, ghost element H */
 #include "sift_common.h"
 void percolateUp(const unsigned int pos)
-__CPROVER_requires(N >= 1 && N <= 65535 && pos < N && G < N)
-__CPROVER_requires(E_G == vector_[G] && T == vector_[pos])
-__CPROVER_requires(G > 0 ==> E_P == vector_[P])
-__CPROVER_requires((G > 0 && P > 0) ==> E_PP == vector_[PP])
-/* pre-state heap order instances, excluding relations whose child is pos or whose parent is pos */
-__CPROVER_requires((G > 0 && G != pos && P != pos) ==> !lt_(D(vector_[G]), D(vector_[P])))
-__CPROVER_requires((G > 0 && P > 0 && P != pos) ==> !lt_(D(vector_[P]), D(vector_[PP])))
-/* grand relation for children of pos */
-__CPROVER_requires((G > 0 && P == pos && pos > 0) ==> !lt_(D(vector_[G]), D(vector_[PP])))
-/* handles: of the ghost element H and of the element at pos */
-__CPROVER_requires(F_position[H] < N && vector_[F_position[H]] == H)
-__CPROVER_requires(F_position[vector_[pos]] == pos)
-__CPROVER_assigns(vector_, F_position)
-/* C11.order: heap order at G afterwards, unless G is a child of pos and nothing moved (then slot G is untouched) */
-__CPROVER_ensures((G > 0 && !(P == pos && vector_[pos] == T)) ==> !lt_(D(vector_[G]), D(vector_[P])))
-__CPROVER_ensures((G > 0 && P == pos && vector_[pos] == T) ==> vector_[G] == E_G)
-/* C11.handle: every element's handle still finds it */
-__CPROVER_ensures(F_position[H] < N && vector_[F_position[H]] == H)
-/* frame: slots that are not ancestors-or-self of pos keep their element; the multiset is permuted along the path only */
-__CPROVER_ensures(!ANC(pos, G) ==> vector_[G] == E_G)
-__CPROVER_ensures(N == __CPROVER_old(N))
+PERCOLATE_UP_CONTRACT
 /*@BODY percolateUp@*/
 
 void harness(void)
